@@ -30,6 +30,7 @@ func c12(c *eng.Ctx, r *eng.Report) {
 		"R12.3 the readOnly flag is only set/reset inside Run under `readOnly && !in.readOnly`; " +
 		"R12.4 AccountDB.Prepare re-initialises every per-transaction scratch field and the block executor calls it before each transaction's BeforeExecute and reads logs by the same hash; " +
 		"R12.5 every raw state mutation is preceded by its journal entry on every path (C04's R4.2 re-run: RevertToSnapshot can only undo what was journaled). " +
+		"R12.10 a creation that cannot pay the code deposit installs no code: in (*EVM).create SetCode(address, ret) is reached only across the edge on which contract.UseGas(createDataGas) answered true (this code base does not revert the frame on ErrCodeStoreOutOfGas, so code stored before the charge would stay installed and callable while CREATE reports failure); " +
 		"R12.9 a creation that is refused before it has a frame changes nothing: the creator's nonce is written only inside (*EVM).create (and AuthCall's reviewed bump), there only after the call-depth test and the CanTransfer test have passed, and the wrappers Create/Create2 write no state themselves — a CREATE with an endowment above the balance, or at depth 1025, leaves the nonce and the state root as they were; " +
 		"R12.7 a frame's snapshot is taken before the frame changes anything: in Call, CallCode, DelegateCall, StaticCall, AuthCall and create every call that can reach a raw state setter (value transfer, account creation — directly or through a helper) is dominated by StateDB.Snapshot(); the reviewed exceptions are the nonce bumps of create and AuthCall and create's access-list entry, which survive a failed frame by design; " +
 		"R12.8 journal entries do not alias a reusable buffer: GetERC20Key returns a slice of an array allocated in that call (C06's R6.9 here: the journal keeps the key slice, so a shared buffer makes every entry of a failing frame point at the key derived last and the revert restores balances into the wrong slot); " +
@@ -59,6 +60,7 @@ func c12(c *eng.Ctx, r *eng.Report) {
 	c04UndoAs(c, r, "R12.6", nil, 12)
 	c12SnapshotFirst(c, r)
 	c12NonceAfterChecks(c, r)
+	c12CodeAfterDeposit(c, r)
 	// R12.8: what the journal records must stay what it was when recorded — the key slice of a balance write is
 	// the caller's own (C06's R6.9 under this property's id: a frame that moved value and fails is undone slot by slot)
 	c06BalanceKeyFreshAs(c, r, "R12.8")
@@ -483,15 +485,35 @@ func c12Prepare(c *eng.Ctx, r *eng.Report) {
 	for _, f := range perTxScratch {
 		key := "Prepare:field:" + f
 		stores := eng.FieldStores(prep, "storage/account.AccountDB", f)
-		fresh := false
+		fresh, conditional := false, ""
 		for _, st := range stores {
 			v := st.(*ssa.Store).Val
+			isFresh := false
 			if call, ok := v.(*ssa.Call); ok && call.Call.StaticCallee() != nil && len(call.Call.Args) == 0 {
-				fresh = true
+				isFresh = true
 			}
 			if _, ok := v.(*ssa.MakeMap); ok {
-				fresh = true
+				isFresh = true
 			}
+			if !isFresh {
+				continue
+			}
+			// on every path: the store dominates every return of Prepare
+			every := true
+			for _, re := range eng.Returns(prep) {
+				if !eng.Dominates(st, re.Ret) {
+					every = false
+				}
+			}
+			if every {
+				fresh = true
+			} else {
+				conditional = c.Pos(st.Pos())
+			}
+		}
+		if !fresh && conditional != "" {
+			r.Fail(rule, key, conditional, "Prepare re-initialises AccountDB."+f+" only on some paths (the assignment at "+conditional+" is conditional): whatever the condition overlooks — addresses recorded without any slot, say — stays warm for the next transaction of the block, which then starts with a non-empty access list")
+			continue
 		}
 		// the field must exist at all
 		st := c.Struct("storage/account", "AccountDB")
@@ -770,5 +792,32 @@ func c12NonceAfterChecks(c *eng.Ctx, r *eng.Report) {
 			}
 		}
 		r.Check(bad == "", rule, "wrapper-writes-nothing:"+name, c.Pos(fn.Pos()), "the wrapper only derives the address and calls create", name+" changes state before create() has run its pre-flight checks ("+bad+"): a creation refused there keeps the change")
+	}
+}
+
+// c12CodeAfterDeposit: see R12.10.
+func c12CodeAfterDeposit(c *eng.Ctx, r *eng.Report) {
+	const rule = "R12.10"
+	r.Min(rule, 1)
+	create := c.Func("vm", "(*EVM).create")
+	if !r.Anchor(create != nil, rule, "vm.(*EVM).create") {
+		return
+	}
+	n := 0
+	for _, s := range eng.Sites(create) {
+		if !s.Common().IsInvoke() || s.Common().Method.Name() != "SetCode" {
+			continue
+		}
+		n++
+		paid := false
+		for _, cd := range eng.CondsAt(s.Instr) {
+			if call, ok := cd.V.(*ssa.Call); ok && cd.True && strings.HasSuffix(eng.CallName(&call.Call), "Contract).UseGas") {
+				paid = true
+			}
+		}
+		r.Check(paid, rule, "create:code-after-deposit", c.Pos(s.Pos()), "SetCode only after UseGas(createDataGas) succeeded", "create() stores the returned code without the code-deposit charge having succeeded first: when the remaining gas is below the deposit the creation reports ErrCodeStoreOutOfGas, but this code base does not revert the frame for that error, so the full runtime code stays installed and callable at the address while CREATE pushed 0")
+	}
+	if n == 0 {
+		r.Fail(rule, "create:code-after-deposit", c.Pos(create.Pos()), "create() no longer calls StateDB.SetCode: the rule has lost its anchor")
 	}
 }
